@@ -805,6 +805,19 @@ def glr_lookaheads_block_range(repo):
 VERUS_LIFTS["glr_lookaheads_block"] = glr_lookaheads_block_range
 
 
+def write_if_changed(path, text):
+    """generated files are rewritten on every run; an unchanged file is left alone (its mtime too: no needless recompilation, and
+    two checks running side by side on the same tree never see each other's half-written file)"""
+    try:
+        if open(path).read() == text:
+            return
+    except OSError:
+        pass
+    tmp = path + ".tmp%d" % os.getpid()
+    open(tmp, "w").write(text)
+    os.replace(tmp, path)
+
+
 def lift_conflict_block(repo, gen):
     block_text, then_body, meta = conflict_block_range(repo)
     rel, declared, sha = meta["file"], meta["free_variables"], meta["sha256_16"]
@@ -891,7 +904,7 @@ impl<'g, 's> RecCtx<'g, 's> {{
 }}
 """
     os.makedirs(gen, exist_ok=True)
-    open(os.path.join(gen, "conflict_block.rs"), "w").write(out)
+    write_if_changed(os.path.join(gen, "conflict_block.rs"), out)
     return meta
 
 
@@ -959,7 +972,7 @@ impl<'s> SortCtx<'s> {{
 }}
 """
     os.makedirs(gen, exist_ok=True)
-    open(os.path.join(gen, "sort_block.rs"), "w").write(out)
+    write_if_changed(os.path.join(gen, "sort_block.rs"), out)
     return {"lift": "sort_block", "file": rel, "lines": [a, z], "sha256_16": sha, "free_variables": SORT_DECLARED}
 
 
@@ -1003,7 +1016,7 @@ fn lifted_cli_to_settings(cli: Cli, base: Settings) -> Settings {{
 }}
 """
     os.makedirs(gen, exist_ok=True)
-    open(os.path.join(gen, "cli_mapping.rs"), "w").write(out)
+    write_if_changed(os.path.join(gen, "cli_mapping.rs"), out)
     return {"lift": "cli_mapping", "file": rel, "lines": [a, z], "sha256_16": sha, "free_variables": ["cli"]}
 
 
